@@ -4,7 +4,7 @@ from vfw.lifecycle import E
 
 LEVEL = 'model_checking'
 ASSUMPTIONS = [
-    'alphabet: 1 owner, studies {s, t(missing)}, 1 DOUBLE parameter, 1 MAXIMIZE metric, clients {a,b}, scripted exact-delivery algorithm',
+    'alphabet: owner o with studies {s, missing}, plus a multi-study plan (owners o and p with the same study id; ids differing only by a SQL LIKE wildcard or by case) on a reduced RPC alphabet; 1 DOUBLE parameter, 1 MAXIMIZE metric, clients {a,b}, scripted exact-delivery algorithm',
     'timestamps are not compared; error messages are not compared (only the error class)',
     'protobuf/upb runtime, SQLite, SQLAlchemy and the pure-python proto compiler (vfw/miniprotoc) are trusted',
 ]
@@ -91,7 +91,11 @@ def actions(sysm):
 def system(cfg):
   k = repr(sorted(cfg.items()))
   if k not in _SYS:
-    _SYS[k] = lifecycle.ServiceSystem('C01', cfg, actions)
+    if cfg.get('multi'):
+      from props import c07
+      _SYS[k] = lifecycle.ServiceSystem('C01', cfg, c07.multi_actions)
+    else:
+      _SYS[k] = lifecycle.ServiceSystem('C01', cfg, actions)
   return _SYS[k]
 
 
@@ -102,11 +106,16 @@ def expand(task):
 def run(ctx):
   if ctx.quick:
     plans = [({'backends': ['ram'], 'max_trials': 2, 'max_meas': 1, 'max_ops': 2, 'max_id': 3}, 5),
-             ({'backends': ['sqlmem'], 'max_trials': 2, 'max_meas': 1, 'max_ops': 2, 'max_id': 3}, 3)]
+             ({'backends': ['sqlmem'], 'max_trials': 2, 'max_meas': 1, 'max_ops': 2, 'max_id': 3}, 3),
+             # several studies at once (same id under two owners, ids differing by a LIKE wildcard): reduced alphabet, against the model
+             ({'backends': ['sqlmem'], 'multi': True, 'studies': ('s_1', 'sx1', 'p@s_1'), 'max_trials': 1, 'max_id': 2, 'clients': ('a',)}, 5),
+             ({'backends': ['ram'], 'multi': True, 'studies': ('s_1', 'sx1', 'p@s_1'), 'max_trials': 1, 'max_id': 2, 'clients': ('a',)}, 5)]
   else:
     plans = [({'backends': ['ram'], 'max_trials': 3, 'max_meas': 2, 'max_ops': 3, 'max_id': 5}, 7),
              ({'backends': ['sqlmem'], 'max_trials': 2, 'max_meas': 1, 'max_ops': 2, 'max_id': 4}, 5),
-             ({'backends': ['sqlfile'], 'max_trials': 2, 'max_meas': 1, 'max_ops': 2, 'max_id': 3}, 4)]
+             ({'backends': ['sqlfile'], 'max_trials': 2, 'max_meas': 1, 'max_ops': 2, 'max_id': 3}, 4),
+             ({'backends': ['sqlmem'], 'multi': True, 'studies': ('s_1', 'sx1', 'p@s_1', 'p@S_1'), 'max_trials': 2, 'max_id': 3, 'clients': ('a',)}, 6),
+             ({'backends': ['ram'], 'multi': True, 'studies': ('s_1', 'sx1', 'p@s_1', 'p@S_1'), 'max_trials': 2, 'max_id': 3, 'clients': ('a',)}, 6)]
   cov = {'states': 0, 'transitions': 0, 'traces_validated_against_impl': 0, 'samples': [], 'runs': [], 'exhaustive': True}
   for cfg, depth in plans:
     s = statespace.Search(ctx, 'expand', depth, cfg)
